@@ -2,6 +2,7 @@ import CkbVerif.Lemmas.EpochNext
 import CkbVerif.Lemmas.EpochCompact
 import CkbVerif.Lemmas.EpochChain
 import CkbVerif.Lemmas.EpochCtx
+import CkbVerif.Lemmas.EpochU256
 
 /-!
 # C07 — epoch length, difficulty and per-block issuance arithmetic stay within spec
@@ -700,5 +701,86 @@ theorem chain_epoch_block_rewards_sum {s s' : ChainSt} {bs : List (Nat × Nat)}
     omega
   obtain ⟨f, hf, hsum⟩ := rewards_sum_to_epoch_reward s'.cur (by omega) (by omega) (by omega)
   exact ⟨f, hf, by rw [hsum, ← hR]⟩
+
+
+/-! ## the numext `U256` layer and the compact encoding on its canonical range
+
+`Model/EpochU256.lean` states what each `U256` operation used by the difficulty / epoch code computes
+(tied operation by operation: `u…` lines of the `epoch` stream) and models `U256::gcd` as written
+(Stein's algorithm). -/
+
+/-- `U256::gcd` — strip the common factors of two, then the subtract-and-shift loop — computes the
+mathematical gcd for all 256-bit arguments, never exhausting its iteration bound: the `Nat.gcd` in the
+model's `RationalU256` reductions (which decide when a product overflows) is what the code computes. -/
+theorem u256_gcd_is_gcd {a b : Nat} (ha : a < U256) : U256.gcd a b = Nat.gcd a b :=
+  U256.gcd_eq_nat_gcd ha
+
+example : U256.gcd (2 ^ 200 * 12) (2 ^ 100 * 18) = 2 ^ 101 * 3 := by
+  rw [u256_gcd_is_gcd (by decide)]; decide +kernel
+
+/-- `*` returns exactly the product or panics; `<<` then `>>` by the same amount gives the value back
+iff nothing was shifted out -/
+theorem u256_mul_exact (a b r : Nat) : U256.mul a b = some r ↔ a * b < U256 ∧ r = a * b := by
+  unfold U256.mul chk256; exact chk_eq_some
+
+theorem u256_shl_shr (a k : Nat) (h : a * 2 ^ k < U256) : U256.shr (U256.shl a k) k = a := by
+  unfold U256.shr U256.shl
+  rw [Nat.mod_eq_of_lt h]
+  exact Nat.mul_div_cancel _ (Nat.pow_pos (by decide))
+
+/-- `compact_canonical_roundtrip`: on the canonical range (byte length `e` in 1..32, top mantissa
+byte non-zero, no mantissa bits that decoding drops) `target_to_compact ∘ compact_to_target` is the
+identity, without overflow flag; the decoded target has exactly `e` bytes. -/
+theorem compact_canonical_roundtrip {m e : Nat} (h : CanonicalCompact m e) :
+    targetToCompact (compactToTarget (m + e * 2 ^ 24)).1 = m + e * 2 ^ 24 ∧
+      (compactToTarget (m + e * 2 ^ 24)).2 = false ∧
+      2 ^ (8 * (e - 1)) ≤ (compactToTarget (m + e * 2 ^ 24)).1 ∧
+      (compactToTarget (m + e * 2 ^ 24)).1 < 2 ^ (8 * e) := by
+  obtain ⟨hd, hlo, hhi⟩ := canonical_target_bounds h
+  exact ⟨canonical_roundtrip h, by rw [hd], hlo, hhi⟩
+
+/-- the canonical range is exactly the image: every compact `target_to_compact` emits for a non-zero
+256-bit target is canonical (so the two round trips make the encoding a bijection between canonical
+compacts and 3-byte-truncated targets) -/
+theorem target_to_compact_is_canonical {t : Nat} (ht : t < U256) (h0 : t ≠ 0) :
+    ∃ m e, targetToCompact t = m + e * 2 ^ 24 ∧ CanonicalCompact m e :=
+  targetToCompact_canonical ht h0
+
+/-- `compact ↔ target` monotone: on canonical compacts the numeric order of the 32-bit compact values
+is the order of the targets, strictly. -/
+theorem compact_canonical_order {m1 e1 m2 e2 : Nat} (c1 : CanonicalCompact m1 e1) (c2 : CanonicalCompact m2 e2) :
+    (m1 + e1 * 2 ^ 24 ≤ m2 + e2 * 2 ^ 24 ↔
+      (compactToTarget (m1 + e1 * 2 ^ 24)).1 ≤ (compactToTarget (m2 + e2 * 2 ^ 24)).1) ∧
+    (m1 + e1 * 2 ^ 24 < m2 + e2 * 2 ^ 24 ↔
+      (compactToTarget (m1 + e1 * 2 ^ 24)).1 < (compactToTarget (m2 + e2 * 2 ^ 24)).1) := by
+  have inj : ∀ {ma ea mb eb : Nat}, CanonicalCompact ma ea → CanonicalCompact mb eb →
+      (compactToTarget (ma + ea * 2 ^ 24)).1 = (compactToTarget (mb + eb * 2 ^ 24)).1 →
+      ma + ea * 2 ^ 24 = mb + eb * 2 ^ 24 := by
+    intro ma ea mb eb ca cb heq
+    rw [← canonical_roundtrip ca, ← canonical_roundtrip cb, heq]
+  constructor
+  · constructor
+    · exact canonical_mono c1 c2
+    · intro ht
+      by_cases hc : m1 + e1 * 2 ^ 24 ≤ m2 + e2 * 2 ^ 24
+      · exact hc
+      · have := canonical_mono c2 c1 (by omega)
+        have := inj c1 c2 (by omega)
+        omega
+  · constructor
+    · intro hlt
+      have hle := canonical_mono c1 c2 (by omega)
+      by_cases heq : (compactToTarget (m1 + e1 * 2 ^ 24)).1 = (compactToTarget (m2 + e2 * 2 ^ 24)).1
+      · have := inj c1 c2 heq; omega
+      · omega
+    · intro ht
+      by_cases hc : m2 + e2 * 2 ^ 24 ≤ m1 + e1 * 2 ^ 24
+      · have := canonical_mono c2 c1 hc; omega
+      · omega
+
+/-- the mainnet genesis compact target is canonical -/
+example : CanonicalCompact 0x08a8b1 0x1a ∧ 0x08a8b1 + 0x1a * 2 ^ 24 = 0x1a08a8b1 := by
+  unfold CanonicalCompact; decide
+
 
 end CkbVerif.C07
